@@ -34,6 +34,8 @@ NamesFor(ty) ==
   Ancestors(ty, TyKind) \cup AbstractFHIR
   \cup {IF ty = "HumanName" THEN "Address" ELSE "HumanName", IF ty = "Patient" THEN "Observation" ELSE "Patient", "string", "Quantity"}
   \cup {OtherCase(ty), SystemOf(ty)}
+  \cup (IF ty \in FHIRNames /\ TyKind[ty] = "prim" THEN {n \in FHIRNames : TyKind[n] = "prim"} ELSE {})     \* every sibling primitive
+  \cup (IF ty \in QuantityLike \cup {"Quantity"} THEN QuantityLike ELSE {})
 
 NsFor(name) == {""} \cup (IF name \in SystemNames THEN {"System"} ELSE {}) \cup (IF name \in FHIRNames \cup AbstractFHIR THEN {"FHIR"} ELSE {"FHIR", "Foo"})
 
